@@ -11,20 +11,24 @@ SD = schedlib.SD
 def run(res, tier, seed):
     thorough = tier != 'quick'
     exe = vlib.build_harness('h_taskpool', ['sched/h_taskpool.cpp'])
-    for mod, cfg in [('Mailbox', 'Mailbox_2.cfg'), ('MCw', 'WaitTree_5.cfg'), ('MCp', 'PoolState_2x2.cfg')] + ([('MCTaskPool', 'TaskPool_s2.cfg')] if thorough else []):
+    for mod, cfg in [('Mailbox', 'Mailbox_2.cfg'), ('MCw', 'WaitTree_5.cfg'), ('MCp', 'PoolState_2x2.cfg')] + ([('MCTaskPool', 'TaskPool_s2.cfg')] if thorough else []) + [('MCTaskPoolIso', 'TaskPoolIso_i2.cfg')]:
         vlib.model_check(res, SD, mod, cfg, deadlock=False, timeout=1500)
     drift = 0; ec = et = 0
-    for cfg, prog, nsteal in [('TaskPool_s1.cfg', '1,2,-1,3,-1,-1', '1')] + ([('TaskPool_p2.cfg', '1,-1,2,3,-1,-1,-1', '1')] if thorough else []):
+    # (model, cfg, owner program, steals per thief, isolation tags of the tasks / of the thieves)
+    replays = [('MCTaskPool', 'TaskPool_s1.cfg', '1,2,-1,3,-1,-1', '1', None), ('MCTaskPoolIso', 'TaskPoolIso_i1.cfg', '1,2,-2,-1,-1', '1', ('1,0,1', '0,0'))]
+    if thorough:
+        replays += [('MCTaskPool', 'TaskPool_p2.cfg', '1,-1,2,3,-1,-1,-1', '1', None), ('MCTaskPoolIso', 'TaskPoolIso_i2.cfg', '1,2,3,-2,-2,-1,-1', '1', ('1,0,1', '0,1'))]
+    for mcmod, cfg, prog, nsteal, isoargs in replays:
         tag = 'c01-' + cfg[:-4]
         dot = os.path.join(vlib.BUILD, 'graphs', tag + '.dot'); os.makedirs(os.path.dirname(dot), exist_ok=True)
-        r = vlib.tlc(SD, 'MCTaskPool', cfg, dump=dot); res.add_tlc(r, 'TaskPool:' + cfg); vlib.tlc_must_hold(r, tag)
+        r = vlib.tlc(SD, mcmod, cfg, dump=dot); res.add_tlc(r, mcmod + ':' + cfg); vlib.tlc_must_hold(r, tag)
         if r.violation:
             raise vlib.HarnessFailure('TaskPool model violates %s' % r.violation)
         nodes, edges, init = vlib.parse_dot(dot, ['head', 'tail', 'lock'], raw=True); os.unlink(dot)
         nodes = dict((k, ','.join(v.split('\x1f'))) for k, v in nodes.items())
         paths, cov, tot = vlib.edge_cover(nodes, edges, init)
         sched = os.path.join(vlib.BUILD, 'graphs', tag + '.sched'); vlib.write_schedules(paths, sched)
-        sums, tfs = vlib.run_harness_parallel(lambda part, tf: [exe, part, tf, prog, nsteal], sched, tag, timeout=900)
+        sums, tfs = vlib.run_harness_parallel(lambda part, tf: [exe, part, tf, prog, nsteal] + (list(isoargs) if isoargs else []), sched, tag, timeout=900)
         s = vlib.sum_dicts(sums); drift += s['drift'] + s['state_mismatch']; ec += cov; et += tot
         vlib.validate_and_report(res, SD, 'TraceTaskPool', 'TraceTaskPool.cfg', vlib.collect_traces(tfs), tag,
                                  lambda tr: 'replay of TaskPool on the real arena_slot: a task id was returned twice or lost: ' + json.dumps([e for e in tr if not e['e'].startswith('#')]),
